@@ -16,6 +16,7 @@ META = dict(
 
 HELPERS = '''
 import os
+import typing as ty
 from pathlib import Path
 from fileformats.generic import File
 import pydra.utils.typing as PT
@@ -37,6 +38,8 @@ def _build(codes, files, outer):
             elems.append([files[0], 5])
         elif c == 6:
             elems.append((files[1], files[0]))
+        elif c == 7:
+            elems.append(File(str(files[0])))          # the same file named again: an equal but distinct object (what passing the path twice gives)
     if outer == 0:
         return list(elems)
     if outer == 1:
@@ -68,6 +71,70 @@ def _walk(a, b, path, pairs, errs):
             _walk(x, y, path + "[%d]" % i, pairs, errs)
     elif a != b:
         errs.append("%s: value %r became %r" % (path, a, b))
+
+from pydra.compose import shell
+from pydra.engine.job import Job
+Job._etelemetry_version_data = {}          # the version look-up would go to the network
+from pydra.engine.submitter import Submitter
+_MODES = [File.CopyMode.any, File.CopyMode.copy, File.CopyMode.link]
+_TASKS = {}
+for _m1 in range(3):
+    for _m2 in range(3):
+        for _l in (False, True):
+            _TASKS[(_m1, _m2, _l)] = shell.define("echo", inputs={
+                "f1": shell.arg(type=File, copy_mode=_MODES[_m1], argstr="", position=1),
+                "n": shell.arg(type=int, argstr="-n", default=3),
+                "f2": shell.arg(type=list[File] if _l else File, copy_mode=_MODES[_m2], argstr="", position=2)}, name="T%d%d%d" % (_m1, _m2, _l))
+
+def _c34_job(m1, m2, pick2, as_list):
+    """Job.inputs of a shell task with two file fields of copy modes m1, m2; f2 is files[pick2] (0 = the file also given to f1,
+    as an equal but distinct object), optionally inside a list"""
+    base = E.scratch()
+    try:
+        files = []
+        for i, (d, n) in enumerate([("d0", "a.txt"), ("d1", "b.txt"), ("d2", "a.txt")]):
+            os.makedirs(os.path.join(base, d))
+            p = os.path.join(base, d, n)
+            open(p, "w").write("content-%d" % i)
+            files.append(File(p))
+        v2 = File(str(files[pick2]))
+        task = _TASKS[(m1, m2, bool(as_list))](f1=files[0], f2=[v2] if as_list else v2)
+        cache = os.path.join(base, "cache")
+        os.makedirs(cache)
+        desc = "task with f1 (mode %s) = %s, f2 (mode %s) = %s%s" % (["any", "copy", "link"][m1], files[0].fspath.name, ["any", "copy", "link"][m2],
+                                                                     "the same file" if pick2 == 0 else "files[%d]" % pick2, " in a list" if as_list else "")
+        with Submitter(cache_root=cache, worker="debug") as sub:
+            job = Job(task, submitter=sub, name="j")
+            os.makedirs(job.cache_dir)
+            try:
+                inp = job.inputs
+            except FileExistsError:
+                T.reach()
+                return None            # refusing a clash is an error, not a mis-staging
+        T.reach()
+        if inp["n"] != 3:
+            return "%s: non-file input n became %r" % (desc, inp["n"])
+        for name, src, mode in (("f1", files[0], m1), ("f2", files[pick2], m2)):
+            got = inp[name]
+            if name == "f2" and as_list:
+                if not (isinstance(got, list) and len(got) == 1):
+                    return "%s: list value of f2 became %r" % (desc, got)
+                got = got[0]
+            if not isinstance(got, File):
+                return "%s: %s became %r" % (desc, name, got)
+            dst, srcp = str(got), str(src)
+            if open(dst).read() != open(srcp).read():
+                return "%s: %s staged content differs" % (desc, name)
+            same = os.path.samefile(srcp, dst)
+            if mode == 1 and same:
+                return "%s: %s has copy mode 'copy' but the job sees the original file itself (%s)" % (desc, name, dst)
+            if mode == 2 and not same:
+                return "%s: %s has copy mode 'link' but the job sees an independent copy (%s)" % (desc, name, dst)
+            if mode != 0 and not dst.startswith(str(job.cache_dir) + os.sep):
+                return "%s: %s staged outside the job directory: %s" % (desc, name, dst)
+        return None
+    finally:
+        E.cleanup(base)
 
 def _c34(codes, outer, copy_mode, cifs):
     base = E.scratch()
@@ -130,14 +197,30 @@ def build(tier, seed, exclude):
     quick = tier == "quick"
     to = 60 if quick else 300
     for outer in range(3):
-        g.cond(f"h_shape_outer{outer}", "c0: int, c1: int, c2: int, n: int, copy_mode: int, cifs: bool", ["0 <= c0 <= 6 and 0 <= c1 <= 6 and 0 <= c2 <= 6 and 1 <= n <= 3 and 0 <= copy_mode <= 2"], f"""
-            codes = [T.real(c0), T.real(c1), T.real(c2)][:T.real(n)]
+        # the three element kinds come from one scrambled code (consecutive codes give unrelated shapes)
+        g.cond(f"h_shape_outer{outer}", "sd: int, n: int, copy_mode: int, cifs: bool", ["0 <= sd < 512 and 1 <= n <= 3 and 0 <= copy_mode <= 2"], f"""
+            codes = T.decode(T.real(sd), 3, 8)[:T.real(n)]
             err = _c34(codes, {outer}, T.real(copy_mode), T.real(cifs))
+            return T.fail(err) if err else True
+        """, timeout=to)
+        # the same file at two places of the value (same object, equal object, inside an inner list/tuple); a third element of any kind
+        g.cond(f"h_repeat_outer{outer}", "c: int, pos: int, cifs: bool, k1: int, k2: int, copy_mode: int",
+               ["0 <= c <= 7 and 0 <= pos <= 3 and 0 <= k1 < 4 and 0 <= k2 < 4 and 0 <= copy_mode <= 2"], f"""
+            c, pos, cifs = T.real(c), T.real(pos), T.real(cifs)
+            codes = [[2, 7, 5, 6][T.real(k1)], [2, 7, 5, 6][T.real(k2)]]
+            if pos < 3:
+                codes.insert(pos, c)
+            err = _c34(codes, {outer}, T.real(copy_mode), cifs)
+            return T.fail(err) if err else True
+        """, timeout=to)
+    for as_list in (False, True):
+        g.cond(f"h_job_inputs_{'list' if as_list else 'bare'}", "m1: int, m2: int, pick2: int", ["0 <= m1 <= 2 and 0 <= m2 <= 2 and 0 <= pick2 <= 2"], f"""
+            err = _c34_job(T.real(m1), T.real(m2), T.real(pick2), {as_list})
             return T.fail(err) if err else True
         """, timeout=to)
     g.cond("twin_c34", "c0: int", ["2 <= c0 <= 4"], """
         err = _c34([T.real(c0)], 0, 1, False)
         return False
     """, timeout=60, kind="twin")
-    return g.spec(bounds={"outer container": "list / tuple / dict", "elements": "1-3 of 7 kinds (int, str, three files, inner list, inner tuple)",
+    return g.spec(bounds={"outer container": "list / tuple / dict", "elements": "1-3 of 8 kinds (int, str, three files, inner list, inner tuple, an equal but distinct object for the first file)", "job inputs": "two file fields x 3 copy modes each, same / different file, bare or in a list",
                           "copy mode": "any / copy / link", "mount": "plain / CIFS (patched mount table)"})
